@@ -150,6 +150,79 @@ func (se *cfsSess) firstTouch(r *vRand, name string, add func(op, ob, d string))
 	se.readAll(name, add)
 }
 
+// scriptCreateWrite: open name (create, read-write) and write n random bytes through the new handle.
+func (se *cfsSess) scriptCreateWrite(r *vRand, name string, n int, add func(op, ob, d string)) {
+	f, err := se.fs.OpenFile(name, os.O_RDWR|os.O_CREATE, 0644)
+	op := fmt.Sprintf("OOpen %s (FL 2 true false false false false)", gStr(name))
+	if err != nil {
+		add(op, c08ErrObs(err), fmt.Sprintf("open %q", name))
+		return
+	}
+	se.hs = append(se.hs, f)
+	se.known = append(se.known, name)
+	h := len(se.hs) - 1
+	add(op, fmt.Sprintf("VNat %d", h), fmt.Sprintf("create %q", name))
+	data := make([]byte, n)
+	for j := range data {
+		data[j] = byte(1 + r.Intn(250))
+	}
+	wn, err := f.Write(data)
+	ob := fmt.Sprintf("VNat %d", wn)
+	if err != nil {
+		ob = c08ErrObs(err)
+	}
+	add(fmt.Sprintf("OWrite %d %s", h, c08Bytes(data)), ob, fmt.Sprintf("write h%d %d bytes", h, n))
+	se.tag("write-ok")
+}
+
+// scriptMutate: through handle h, either truncate to a size inside the file, or seek inside and write.
+func (se *cfsSess) scriptMutate(r *vRand, h int, add func(op, ob, d string)) {
+	if h >= len(se.hs) {
+		return
+	}
+	f := se.hs[h]
+	size := int(f.Size())
+	if r.Chance(1, 2) {
+		n := r.Intn(size + 2)
+		if size > 1 && r.Chance(2, 3) {
+			n = 1 + r.Intn(size-1) // strictly inside
+			if se.mb > 1 && r.Bool() {
+				// cut inside the last segment (which may be shared with a background write)
+				k := se.mb - 1
+				if k > size-1 {
+					k = size - 1
+				}
+				n = size - 1 - r.Intn(k)
+			}
+		}
+		err := f.Truncate(int64(n))
+		ob := "VUnit"
+		if err != nil {
+			ob = c08ErrObs(err)
+		}
+		add(fmt.Sprintf("OTrunc %d %d", h, n), ob, fmt.Sprintf("truncate h%d %d (size %d)", h, n, size))
+		se.tag("truncate-ok")
+		return
+	}
+	off := r.Intn(size + 2)
+	pos, err := f.Seek(int64(off), 0)
+	if err != nil {
+		add(fmt.Sprintf("OSeek %d %d false 0", h, off), c08ErrObs(err), "seek")
+		return
+	}
+	add(fmt.Sprintf("OSeek %d %d false 0", h, off), fmt.Sprintf("VNat %d", pos), fmt.Sprintf("seek h%d %d", h, off))
+	data := make([]byte, 1+r.Intn(se.mb+1))
+	for j := range data {
+		data[j] = byte(1 + r.Intn(250))
+	}
+	wn, err := f.Write(data)
+	ob := fmt.Sprintf("VNat %d", wn)
+	if err != nil {
+		ob = c08ErrObs(err)
+	}
+	add(fmt.Sprintf("OWrite %d %s", h, c08Bytes(data)), ob, fmt.Sprintf("write h%d %d bytes at %d", h, len(data), off))
+}
+
 // randomOp performs one random foreground operation (step i of the history) and reports it through add.
 // readonly restricts the choice to operations that cannot modify the filesystem.
 func (se *cfsSess) randomOp(r *vRand, focus bool, i int, readonly bool, add func(op, ob, d string)) {
